@@ -676,9 +676,9 @@ func (n *xnode) ops() int {
 
 func c04n(tier string) int {
 	if tier == "thorough" {
-		return 500000
+		return 3000000
 	}
-	return 12000
+	return 60000
 }
 
 var c04directed = []struct{ src, want string }{
